@@ -188,6 +188,21 @@ func (g GRPCAPI) ServeWho(id uint32, tag string) {
 		return s
 	})
 }
+// ServeWhoRaw accepts the id with the broker's Accept and serves the who service on the listener
+// itself, never closing it: an application that leaves its brokered listeners to the shutdown.
+func (g GRPCAPI) ServeWhoRaw(id uint32, tag string) error {
+	ln, err := g.B.Accept(id)
+	if err != nil {
+		return err
+	}
+	s := grpc.NewServer()
+	s.RegisterService(&whoDesc, &whoImpl{tag: tag})
+	go func() {
+		s.Serve(ln)
+		s.Stop()
+	}()
+	return nil
+}
 func (g GRPCAPI) DialWho(id uint32) (string, error) {
 	conn, err := g.B.Dial(id)
 	if err != nil {
